@@ -8,6 +8,7 @@ import InTotoModel.Model.Threshold
 import InTotoModel.Driver.RulesProto
 import InTotoModel.Driver.VerifyProto
 import InTotoModel.Generated.StrRequests
+import InTotoModel.Model.Attest
 /-
   Executable model driver: one operation per input line, one canonical answer per line.
   Unknown or malformed operations answer `bad-op` (never a default).
@@ -97,6 +98,26 @@ def step (line : String) : String :=
       if RulesSpec.Normalized item links then toString (RulesSpec.verdict item links) else "na"
     | none => "bad-op"
   | "verify" :: toks => runVerify toks
+  | "pred_fmt" :: _ :: keys =>
+    match keys.mapM strOfHex with
+    | some ks =>
+      let c := Attest.candidates Attest.predicateFormats ks
+      if c.isEmpty then "none" else String.intercalate "," (c.map String.ofList)
+    | none => "bad-op"
+  | "stmt_fmt" :: _ :: keys =>
+    match keys.mapM strOfHex with
+    | some ks =>
+      let c := Attest.candidates Attest.statementFormats ks
+      if c.isEmpty then "none" else String.intercalate "," (c.map String.ofList)
+    | none => "bad-op"
+  | ["pred_ver_of", h] =>
+    match strOfHex h with
+    | some s => match Attest.predicateVerOf s with | some v => String.ofList v | none => "none"
+    | none => "bad-op"
+  | ["stmt_ver_of", h] =>
+    match strOfHex h with
+    | some s => match Attest.statementVerOf s with | some v => String.ofList v | none => "none"
+    | none => "bad-op"
   | ["strreq-all-owned", _] =>
     toString (Generated.strRequests.all fun r => r.kind != .borrowed && r.kind != .unknown)
   | ["prefix8", h] =>
